@@ -163,6 +163,66 @@ fn directed_w2(rt: &tokio::runtime::Runtime) -> u64 {
     1
 }
 
+/// directed: two batches are open on one key; the OLDER one is submitted, committed and its after-commit notification has
+/// run (the staging log is trimmed up to its epoch) while the younger one is still open: a read must still see every
+/// operation staged through the younger batch
+fn directed_older_committed(rt: &tokio::runtime::Runtime, variant: u32) -> u64 {
+    let db = MockDb::default();
+    if variant >= 1 {
+        let engine = DbBacked::new(db.clone(), Configuration::builder().cache_capacity(4).serialization_workers(1).build());
+        let manager = engine.new_write_manager();
+        let sets = engine.new_key_of_set_map::<SetCol, Set>();
+        let mut b0 = manager.new_write_batch();
+        let n = if variant == 2 { 1100 } else { 1 };
+        for e in 0..n { rt.block_on(sets.insert(2, 5 + e, &mut b0)); }
+        manager.submit_write_batch(b0);
+        drop(sets); drop(manager);
+    }
+    let engine = DbBacked::new(db.clone(), Configuration::builder().cache_capacity(16).serialization_workers(1).build());
+    let manager = engine.new_write_manager();
+    let sets = engine.new_key_of_set_map::<SetCol, Set>();
+    let (mut older, mut younger) = (manager.new_write_batch(), manager.new_write_batch());
+    let (key, probe, want, desc): (u32, u32, BTreeSet<u32>, String);
+    if variant == 0 {
+        rt.block_on(sets.insert(1, 10, &mut older));
+        rt.block_on(sets.insert(1, 20, &mut younger));
+        rt.block_on(sets.insert(1, 30, &mut younger));
+        key = 1; probe = 10; want = [10, 20, 30].into();
+        desc = "older batch: insert(1,10); younger batch (still open): insert(1,20), insert(1,30); older submitted, committed, notified; get(1)".into();
+    } else {
+        rt.block_on(sets.insert(2, 3, &mut older));
+        rt.block_on(sets.remove(&2, &5, &mut younger));
+        rt.block_on(sets.insert(2, 4, &mut younger));
+        key = 2; probe = 3;
+        let n = if variant == 2 { 1100 } else { 1 };
+        let mut w: BTreeSet<u32> = (5..5 + n).collect(); w.remove(&5); w.insert(3); w.insert(4);
+        want = w;
+        desc = format!("store holds {n} members of key 2 incl. 5; older batch: insert(2,3); younger batch (still open): remove(2,5), insert(2,4); older submitted, committed, notified; get(2)");
+    }
+    manager.submit_write_batch(older);
+    // wait until the older batch is in the store, then give the after-commit thread time to notify the caches
+    let pk = set_key::<SetCol>(&key);
+    let pe = qbice_serialize::postcard::encode(&probe, &qbice_serialize::Plugin::default()).unwrap();
+    for _ in 0..1000 {
+        if db.0.sets.lock().unwrap().get(&pk).map(|s| s.contains(&pe)).unwrap_or(false) { break; }
+        std::thread::sleep(std::time::Duration::from_millis(5));
+    }
+    std::thread::sleep(std::time::Duration::from_millis(300));
+    let got: BTreeSet<u32> = rt.block_on(sets.get(&key)).collect();
+    let got2: BTreeSet<u32> = rt.block_on(sets.get(&key)).collect();
+    eprintln!("LAST-HISTORY directed older-committed variant {variant}");
+    manager.submit_write_batch(younger);
+    drop(sets); drop(manager);
+    for g in [&got, &got2] {
+        if *g != want {
+            let missing: Vec<_> = want.difference(g).take(5).collect();
+            let extra: Vec<_> = g.difference(&want).take(5).collect();
+            report_found("key-to-set map read does not reflect the operations issued before it", &desc, &format!("{} elements; missing {missing:?}; stale/extra {extra:?}", g.len()), &format!("{} elements", want.len()));
+        }
+    }
+    2
+}
+
 /// directed: n members are durable in the store; a FRESH map (cold set cache) reads the key -- across the 1024 spill
 /// threshold -- with staged inserts / removes on top (they must be merged into the spilled / streaming iteration)
 fn directed_cold_spill(rt: &tokio::runtime::Runtime, n: u32, staged: bool) -> u64 {
@@ -211,6 +271,7 @@ fn main() {
     let mut n = 0u64;
     n += directed_w1(&rt);
     n += directed_w2(&rt);
+    for v in 0..3 { n += directed_older_committed(&rt, v); }
     for members in [3u32, 1023, 1024, 1025, 1026, 1100, 2100] {
         n += directed_cold_spill(&rt, members, false);
         n += directed_cold_spill(&rt, members, true);
